@@ -14,6 +14,7 @@ import (
 	"runtime"
 	"strconv"
 	"sync"
+	"sync/atomic"
 	"testing"
 	"testing/synctest"
 	"time"
@@ -372,4 +373,132 @@ func TestWatchTransports(t *testing.T) {
 		runtime.GOMAXPROCS(old)
 	}
 	w.Write(Ev{"summary": true, "runs": n})
+}
+
+// Connections one after the other, and several at a time, in real time and outside any synctest bubble: what one connection's
+// NewConn leaves behind (a watcher, pooled state) must not change how the next one treats ITS context. Each step is either
+// "expire" (nothing arrives; the context ends while NewConn is blocked: it must fail promptly) or "ok" (the hello arrives: the
+// connection is returned and works, also after its context has ended).
+func TestWatchSequences(t *testing.T) {
+	out := os.Getenv("VH_OUT")
+	if out == "" {
+		t.Skip("VH_OUT not set")
+	}
+	w := newNDWriter(t, out)
+	defer w.Close()
+	kr := newKeyring(seed())
+	s := newSealer(kr)
+	hello := handshakeRecord(s.helloBody(sealedHello(stdOuter, stdInner, aEnc{To: "k1", Id: "e1"}, 7, "s1", true), outerRandom, encOpts{padLen: 9}, "", -1))
+	keys := kr.serverKeys([]string{"K1"})
+	var wmu sync.Mutex
+	runs := 0
+	report := func(key, d string) {
+		wmu.Lock()
+		w.Write(Ev{"key": key, "diff": d})
+		wmu.Unlock()
+	}
+	one := func(key string, step string, how int) (hung bool) {
+		cl, sv := net.Pipe()
+		defer cl.Close()
+		defer sv.Close()
+		var ctx context.Context
+		var cancel context.CancelFunc
+		if how%2 == 0 {
+			ctx, cancel = context.WithCancel(context.Background())
+			if step == "expire" {
+				time.AfterFunc(20*time.Millisecond, cancel)
+			}
+		} else {
+			d := time.Hour
+			if step == "expire" {
+				d = 20 * time.Millisecond
+			}
+			ctx, cancel = context.WithTimeout(context.Background(), d)
+		}
+		defer cancel()
+		if step == "ok" {
+			go func() {
+				cl.Write(hello)
+				buf := make([]byte, 64)
+				for {
+					if _, err := cl.Read(buf); err != nil {
+						return
+					}
+				}
+			}()
+		}
+		type res struct {
+			c   *ech.Conn
+			err error
+		}
+		ch := make(chan res, 1)
+		t0 := time.Now()
+		go func() {
+			c, err := ech.NewConn(ctx, sv, ech.WithKeys(keys))
+			ch <- res{c, err}
+		}()
+		select {
+		case r := <-ch:
+			switch {
+			case step == "expire" && r.err == nil:
+				report(key, "NewConn returned a connection although no hello ever arrived")
+			case step == "expire" && time.Since(t0) > watchdogLimit():
+				report(key, fmt.Sprintf("NewConn failed only %v after its context had ended", time.Since(t0)))
+			case step == "ok" && r.err != nil:
+				report(key, "NewConn failed although the hello arrived and the context was live: "+r.err.Error())
+			case step == "ok":
+				cancel() // the context ends after NewConn has returned: no effect on the connection
+				time.Sleep(2 * time.Millisecond)
+				if _, err := r.c.Write([]byte{23, 3, 3, 0, 1, 0x7f}); err != nil {
+					report(key, "I/O on the returned connection fails after its context ended: "+err.Error())
+				}
+			}
+		case <-time.After(watchdogLimit()):
+			noteHang()
+			report(key, fmt.Sprintf("NewConn is still blocked %v after its context ended (step %q)", time.Since(t0), step))
+			return true
+		}
+		return false
+	}
+	seqs := [][]string{
+		{"expire", "expire", "expire"},
+		{"expire", "ok", "expire", "ok"},
+		{"ok", "expire", "expire", "ok", "ok", "expire"},
+	}
+	for si, seq := range seqs {
+		for _, how := range []int{0, 1} {
+			// one goroutine runs the whole sequence (pooled state, if any, comes back to the same P)
+			done := make(chan struct{})
+			go func() {
+				defer close(done)
+				runtime.LockOSThread()
+				defer runtime.UnlockOSThread()
+				for i, step := range seq {
+					runs++
+					if one(fmt.Sprintf("seq%d/how%d/step%d:%s", si, how, i, step), step, how+i) {
+						return
+					}
+				}
+			}()
+			<-done
+		}
+	}
+	// several connections at a time, each goroutine running its own sequence
+	var wg sync.WaitGroup
+	var cnt atomic.Int64
+	for g := 0; g < 8; g++ {
+		wg.Add(1)
+		go func(g int) {
+			defer wg.Done()
+			seq := seqs[g%len(seqs)]
+			for i, step := range seq {
+				cnt.Add(1)
+				if one(fmt.Sprintf("conc/g%d/step%d:%s", g%len(seqs), i, step), step, g+i) {
+					return
+				}
+			}
+		}(g)
+	}
+	wg.Wait()
+	w.Write(Ev{"summary": true, "runs": runs + int(cnt.Load())})
 }
